@@ -16,6 +16,7 @@ import GoZero.C03.ScriptRun
 import GoZero.C03.Props
 import GoZero.C03.ProofsPeriodW
 import GoZero.C03.ProofsTokenKeys
+import GoZero.C03.RescueIval
 namespace GoZero.C03.PropsApi
 open GoZero.C03 Spec
 
@@ -415,5 +416,197 @@ theorem token_api_keys_refine_own_bucket (rate burst : Nat) (key : String) (hr :
 example : (Sys.runK (newTokenCfg 1 2 "a") (Sys.init (newTokenCfg 1 2 "a"))
       [.own (.allow 0 100000000000 2), .other (newTokenCfg 5 3 "ab") 100 3, .own (.allow 1 100000000000 1),
        .other (newTokenCfg 5 3 "") 100 1, .own (.allow 0 101000000000 1)]).map (·.ok) = [true, false, true] := by decide
+
+/-! ## round 5c: a reply lost after the script ran (deadline / timeout during the call) -/
+
+/-- operations of a period run in which some takes lose their reply after the script ran -/
+inductive POpL where
+  | op (o : POp)
+  | lost (key : String)
+  deriving Repr, DecidableEq
+
+/-- the same run with every reply delivered -/
+def POpL.abs : POpL → POp
+  | .op o => o
+  | .lost k => .take k
+
+def _root_.GoZero.C03.PSys.stepL (quota period : Nat) (s : PSys) : POpL → PSys × Option (Code × PErr)
+  | .op o => s.step quota period o
+  | .lost k => let r := s.takeLost quota period k; (r.1, some r.2)
+
+def _root_.GoZero.C03.PSys.runL (quota period : Nat) : PSys → List POpL → List (Option (Code × PErr))
+  | _, [] => []
+  | s, o :: ops => (s.stepL quota period o).2 :: PSys.runL quota period (s.stepL quota period o).1 ops
+
+/-- what the caller of a lost take sees instead of the reply -/
+def hideLost : List POpL → List (Option (Code × PErr)) → List (Option (Code × PErr))
+  | .lost _ :: ops, _ :: rs => some (Code.unknown, PErr.store) :: hideLost ops rs
+  | _ :: ops, r :: rs => r :: hideLost ops rs
+  | _, _ => []
+
+theorem takeLost_state (quota period : Nat) (s : PSys) (k : String) :
+    (s.takeLost quota period k).1 = (s.take quota period k).1 ∧
+    (s.takeLost quota period k).2 = (Code.unknown, PErr.store) := by
+  unfold PSys.takeLost PSys.take
+  cases s.up <;> simp [takeResult]
+
+/-- **PeriodLimit, reply lost after the script ran: a permit may be consumed without a grant, never a grant without
+consumption.**  For every quota, period and EVERY operation sequence in which any takes lose their reply: the caller of a
+lost take gets `(Unknown, err)` — never a grant —, and every other reply is exactly the reply of the run in which all
+replies were delivered (the lost take counted as a take: `period_refines_spec` applies to that run, so the answered takes
+of a life are granted at most `quota − lost` times). -/
+theorem lost_takes_count_and_never_grant (quota period : Nat) : ∀ (ops : List POpL) (s : PSys),
+    PSys.runL quota period s ops = hideLost ops (PSys.run quota period s (ops.map POpL.abs)) := by
+  intro ops
+  induction ops with
+  | nil => intro s; rfl
+  | cons o rest ih =>
+    intro s
+    cases o with
+    | op o =>
+      simp only [PSys.runL, PSys.stepL, List.map_cons, POpL.abs, PSys.run, hideLost]
+      rw [ih]
+    | lost k =>
+      obtain ⟨h1, h2⟩ := takeLost_state quota period s k
+      simp only [PSys.runL, PSys.stepL, List.map_cons, POpL.abs, PSys.run, PSys.step, hideLost, h1, h2]
+      rw [ih]
+
+example : PSys.runL 2 5 PSys.init [.op (.take "a"), .lost "a", .op (.take "a"), .op (.ft 5000), .op (.take "a")]
+    = [some (.allowed, .nil), some (.unknown, .store), some (.overQuota, .nil), none, some (.allowed, .nil)] := by decide
+
+/-- **TokenLimiter: never a grant without consumption** — a request the store path grants has taken its `n` tokens out
+of the shared bucket (what the script stored is `filled − n`, and `n ≤ filled`). -/
+theorem store_grant_consumes (c : TCfg) (hk : c.k1 ≠ c.k2) (s : Sys) (i ns n : Nat)
+    (hr : (s.reserveN true c i ns n).2.route = .store) (ho : (s.reserveN true c i ns n).2.ok = true) :
+    n ≤ filledTokens c s.store (ns / nsPerSec) ∧
+    ((s.reserveN true c i ns n).1.store.find c.k1).map (·.val) = some (filledTokens c s.store (ns / nsPerSec) - n) := by
+  rcases reserveN_cases c hk s i ns n with ⟨h, _⟩ | ⟨_, hok, _, _, _, hf1, _⟩
+  · rw [h] at hr; cases hr
+  · rw [hok] at ho
+    have hle : n ≤ filledTokens c s.store (ns / nsPerSec) := by simpa using ho
+    refine ⟨hle, ?_⟩
+    rw [hf1]; simp [hle]
+
+/-- **TokenLimiter, reply lost after the script ran: a token may be consumed without a grant.**  Instance on the store
+path, store reachable: the shared bucket is charged exactly as by the answered request (so the ONE-bucket refinement goes
+on with the lost request counted); with a context error (`deadline`) the caller is refused and nothing else changes; with
+any other error (`timeout`) the request is handed — with its size `n` at its time — to the local limiter after
+`startMonitor`, like every store failure. -/
+theorem lost_reply_charges_bucket (c : TCfg) (s : Sys) (i ns n : Nat) (k : LostKind)
+    (ha : (s.insts i).alive = true) (hu : s.up = true) :
+    (s.reserveLost c i ns n k).1.store = (s.reserveN true c i ns n).1.store ∧
+    (k = .deadline → (s.reserveLost c i ns n k).2.ok = false ∧ (s.reserveLost c i ns n k).1.insts = s.insts) ∧
+    (k = .timeout → s.reserveLost c i ns n k =
+      ({ s with store := (s.reserveN true c i ns n).1.store }).rescuePath c i (s.insts i).startMonitor ns n) := by
+  have hp := ttlFixed_pos c.rate c.burst
+  have hne : ¬ (ttlFixed c.rate c.burst = 0) := by omega
+  unfold Sys.reserveLost Sys.reserveN
+  simp only [ha, hu, Bool.not_true, Bool.or_self, Bool.false_eq_true, if_false, tokenScript, Store.setex, ttlOf,
+    if_true, hne]
+  cases k with
+  | deadline => exact ⟨rfl, fun _ => ⟨rfl, rfl⟩, fun h => LostKind.noConfusion h⟩
+  | timeout => exact ⟨by simp [Sys.rescuePath], fun h => LostKind.noConfusion h, fun _ => rfl⟩
+
+/-! ### lost replies over whole runs (TokenLimiter, the caller's deadline) -/
+
+/-- operations of a token run in which some requests lose their reply to the caller's deadline after the script ran -/
+inductive TOpL where
+  | op (o : TOp)
+  | lostDeadline (i ns n : Nat)
+
+/-- the same run with every reply delivered -/
+def TOpL.abs : TOpL → TOp
+  | .op o => o
+  | .lostDeadline i ns n => .allow i ns n
+
+def _root_.GoZero.C03.Sys.stepL (c : TCfg) (s : Sys) : TOpL → Sys × Option Ev
+  | .op o => s.step true c o
+  | .lostDeadline i ns n => let r := s.reserveLost c i ns n .deadline; (r.1, some r.2)
+
+def _root_.GoZero.C03.Sys.runL (c : TCfg) : Sys → List TOpL → List Ev
+  | _, [] => []
+  | s, o :: ops =>
+    match (s.stepL c o).2 with
+    | some e => e :: Sys.runL c (s.stepL c o).1 ops
+    | none => Sys.runL c (s.stepL c o).1 ops
+
+/-- two event lists of the same length, related position by position -/
+inductive Pointwise (R : Ev → Ev → Prop) : List Ev → List Ev → Prop where
+  | nil : Pointwise R [] []
+  | cons {a b : Ev} {l1 l2 : List Ev} : R a b → Pointwise R l1 l2 → Pointwise R (a :: l1) (b :: l2)
+
+/-- same request, and the caller is granted only if the delivered run grants -/
+def sameButMaybeRefused (eL e : Ev) : Prop :=
+  eL.inst = e.inst ∧ eL.route = e.route ∧ eL.ns = e.ns ∧ eL.n = e.n ∧ (eL.ok = true → e.ok = true)
+
+theorem reserveLost_deadline_state (c : TCfg) (s : Sys) (i ns n : Nat) :
+    (s.reserveLost c i ns n .deadline).1 = (s.reserveN true c i ns n).1 ∧
+    sameButMaybeRefused (s.reserveLost c i ns n .deadline).2 (s.reserveN true c i ns n).2 := by
+  have hp := ttlFixed_pos c.rate c.burst
+  have hne : ¬ (ttlFixed c.rate c.burst = 0) := by omega
+  unfold Sys.reserveLost
+  by_cases h : (!(s.insts i).alive || !s.up) = true
+  · rw [if_pos h]; exact ⟨rfl, rfl, rfl, rfl, rfl, id⟩
+  · rw [if_neg h]
+    have ha : (s.insts i).alive = true := by
+      cases hh : (s.insts i).alive <;> simp [hh] at h ⊢
+    have hu : s.up = true := by
+      cases hh : s.up <;> simp [hh, ha] at h ⊢
+    unfold Sys.reserveN
+    simp only [ha, hu, Bool.not_true, Bool.false_eq_true, if_false, tokenScript, Store.setex, ttlOf, if_true, hne]
+    refine ⟨?_, ?_⟩
+    · first | trivial | rfl
+    · simp [sameButMaybeRefused]
+
+/-- **TokenLimiter, replies lost to the caller's deadline, over whole runs: tokens may be consumed without a grant, never
+a grant without consumption.**  For EVERY operation sequence (any instances, outages, recoveries) in which any requests
+lose their reply after the script ran: the system goes through exactly the states of the run in which every reply was
+delivered — so the shared store stays ONE bucket (`token_refines_bucket` applies to that run, the lost requests counted
+as requests) — and request by request the caller is granted only if that run grants. -/
+theorem lost_replies_never_grant_more (c : TCfg) : ∀ (ops : List TOpL) (s : Sys),
+    Pointwise sameButMaybeRefused (Sys.runL c s ops) (Sys.run true c s (ops.map TOpL.abs)) := by
+  intro ops
+  induction ops with
+  | nil => intro s; exact Pointwise.nil
+  | cons o rest ih =>
+    intro s
+    cases o with
+    | op o =>
+      simp only [Sys.runL, Sys.stepL, List.map_cons, TOpL.abs, Sys.run]
+      cases (s.step true c o).2 with
+      | none => exact ih _
+      | some e => exact Pointwise.cons ⟨rfl, rfl, rfl, rfl, id⟩ (ih _)
+    | lostDeadline i ns n =>
+      obtain ⟨h1, h2⟩ := reserveLost_deadline_state c s i ns n
+      simp only [Sys.runL, Sys.stepL, List.map_cons, TOpL.abs, Sys.run, Sys.step, h1]
+      exact Pointwise.cons h2 (ih _)
+
+/-- … hence the tokens granted to callers never exceed those the ONE bucket handed out -/
+theorem lost_replies_granted_le (c : TCfg) (ops : List TOpL) (s : Sys) :
+    grantedOf (Sys.runL c s ops) ≤ grantedOf (Sys.run true c s (ops.map TOpL.abs)) := by
+  have h := lost_replies_never_grant_more c ops s
+  generalize Sys.runL c s ops = l1 at h
+  generalize Sys.run true c s (ops.map TOpL.abs) = l2 at h
+  induction h with
+  | nil => exact Nat.le_refl _
+  | @cons ea eb t1 t2 hab _ ih =>
+    obtain ⟨_, _, _, hn, hok⟩ := hab
+    simp only [grantedOf, List.map_cons, List.sum_cons] at ih ⊢
+    cases ha : ea.ok
+    · simp; omega
+    · have := hok ha
+      simp [this, hn]; omega
+
+/-- **The breaker's and the limiter's view of errors agree where it matters**: the token script's `false` (`redis.Nil`) is
+neither a failure for the client's breaker nor a reason to leave the shared bucket — it refuses; and whatever the
+breaker counts as a failure never grants on the store path. -/
+theorem script_false_is_no_failure :
+    breakerAccepts .redisNil = true ∧ reserveDecide .nilReply = .deny ∧
+    (∀ e : ErrClass, breakerAccepts e = false → ∃ r, e.treply = some r ∧ reserveDecide r ≠ .grant) := by
+  refine ⟨rfl, rfl, ?_⟩
+  intro e h
+  cases e <;> simp [breakerAccepts] at h
+  · exact ⟨.ctxErr, rfl, by simp [reserveDecide]⟩
+  · exact ⟨.err, rfl, by simp [reserveDecide]⟩
 
 end GoZero.C03.PropsApi
